@@ -9,7 +9,7 @@ hostile CSR traffic, per-cycle comparison with models/csrmux.MuxModel.
 import random
 
 from vmon import env  # noqa: F401
-from vmon.simkit import Top, Mon, Stop, simulate, bits
+from vmon.simkit import Top, Mon, Stop, simulate, bits, biased_bits
 from vmon.models.csrmux import MuxModel, f3_unsatisfiable
 
 from amaranth.lib import wiring
@@ -53,7 +53,7 @@ def gen_layout(rng, tier):
     return {"aw": aw, "dw": dw, "al": al, "regs": regs,
             "overlaps": rng.choice([None, None, 0, 1, 2, 3]),
             "mode": rng.choice(["conf", "conf", "conf", "mixed", "raw"]),
-            "cycles": (260 if tier == "quick" else 700) * (2 if large else 1)}
+            "cycles": (260 if tier == "quick" else 700) * (2 if large else 1) * (8 if rng.random() < 0.04 else 1)}
 
 
 def build_map(layout):
@@ -120,11 +120,11 @@ def run_mux_case(case, judged):
             x = rng.random()
             if x < 0.12 or not regs:
                 for _ in range(rng.randint(1, 3)):
-                    yield {"addr": rng.randrange(1 << aw), "r_stb": 0, "w_stb": 0, "w_data": bits(rng, dw)}
+                    yield {"addr": rng.randrange(1 << aw), "r_stb": 0, "w_stb": 0, "w_data": biased_bits(rng, dw)}
                 continue
             if x < 0.22 and unmapped:
                 yield {"addr": rng.choice(unmapped), "r_stb": int(rng.random() < 0.6),
-                       "w_stb": int(rng.random() < 0.6), "w_data": bits(rng, dw)}
+                       "w_stb": int(rng.random() < 0.6), "w_data": biased_bits(rng, dw)}
                 continue
             r = rng.choice(regs)
             kind = rng.choice(["r", "w", "rw", "r", "w"])
@@ -132,19 +132,19 @@ def run_mux_case(case, judged):
             stop_after = length if rng.random() < 0.7 else rng.randint(1, length)
             for k in range(stop_after):
                 while rng.random() < 0.15:
-                    yield {"addr": rng.randrange(1 << aw), "r_stb": 0, "w_stb": 0, "w_data": bits(rng, dw)}
+                    yield {"addr": rng.randrange(1 << aw), "r_stb": 0, "w_stb": 0, "w_data": biased_bits(rng, dw)}
                 if mode == "mixed" and rng.random() < 0.06:
                     # protocol breach in the middle of a transaction (monitor must cope)
                     yield {"addr": rng.randrange(1 << aw), "r_stb": int(rng.random() < 0.5),
-                           "w_stb": int(rng.random() < 0.5), "w_data": bits(rng, dw)}
+                           "w_stb": int(rng.random() < 0.5), "w_data": biased_bits(rng, dw)}
                 yield {"addr": r["start"] + k, "r_stb": int("r" in kind), "w_stb": int("w" in kind),
-                       "w_data": bits(rng, dw)}
+                       "w_data": biased_bits(rng, dw)}
 
     def raw():
         while True:
             a = rng.choice(mapped) if mapped and rng.random() < 0.7 else rng.randrange(1 << aw)
             yield {"addr": a, "r_stb": int(rng.random() < 0.5), "w_stb": int(rng.random() < 0.5),
-                   "w_data": bits(rng, dw)}
+                   "w_data": biased_bits(rng, dw)}
 
     gen = raw() if mode == "raw" else conforming()
 
@@ -158,7 +158,7 @@ def run_mux_case(case, judged):
             ctx.set(bus.w_data, inp["w_data"])
             vals = []
             for r in regs:
-                v = bits(rng, r["width"])
+                v = biased_bits(rng, r["width"])
                 vals.append(v)
                 if "r" in r["access"] and r["width"]:
                     ctx.set(r["probe"].element.r_data, v)
